@@ -331,22 +331,14 @@ def run(ctx):
     for d in range(1, depth + 1):
         cases = [{"part": "hist", "hist": [list(o) for o in h] + [list(op)]} for h in frontier for op in ops]
         nxt = []
-        first = {}
-        for case, res in ctx.pmap("run_case", cases):
-            ctx.absorb(case, res)
+        for case, res in ctx.run_level("run_case", cases, det=8 if d == 2 else 0):
             total += 1
             st = res.get("state")
-            if len(first) < 8:
-                import json
-                first[json.dumps(case, sort_keys=True, default=str)] = res
             if st is None:
                 continue
             if st not in seen or d < nodedup:
-                if st not in seen:
-                    seen.add(st)
+                seen.add(st)
                 nxt.append([tuple(o) for o in case["hist"]])
-        if d == 1:
-            ctx.determinism("run_case", cases[:8], first)
         frontier = sorted(nxt)
         ctx.extra[f"bfs_level_{d}"] = {"executed": len(cases), "extended": len(frontier)}
     ctx.sample({"history": show([tuple(o) for o in (frontier[0] if frontier else [])])})
